@@ -6,7 +6,12 @@ From MJ Require Import Common.Base.
 From MJ Require Import C09.Model C09.Spec.
 
 Definition kind_of (z : Z) : kind :=
-  match z with 0 => KStr | 1 => KBytes | 2 => KTuple | 3 => KSeq | 4 => KLazySized | _ => KLazyUnsized end.
+  match z with
+  | 0 => KStr | 1 => KBytes | 2 => KTuple | 3 => KSeq | 4 => KLazySized
+  | 9 | 11 | 12 => KStr      (* string literal in the source; safe string; Arc<str> string *)
+  | 10 => KSeq               (* list literal in the source *)
+  | _ => KLazyUnsized
+  end.
 (* input: kind mode st_tag st sp_tag sp se_tag se form n e1..en *)
 Definition enc_slice (o : outcome (Z * list Z)) : list Z :=
   match o with
